@@ -1141,7 +1141,9 @@ def run(res):
   n_before = n_mism
   mism_before = len(mism)
   rd = common.rng(res.seed, "c05decl")
-  dg = c05_decl.DeclGen(rd, ids, g.Gen(rd, ids), tvars, res.known)
+  decl_fixed = c05_decl.probe_fixed(impl)
+  res.extra["decl_variant"] = "fixed" if decl_fixed else "as-written"
+  dg = c05_decl.DeclGen(rd, ids, g.Gen(rd, ids), tvars, res.known, decl_fixed)
   n_units, n_wf_units = c05_decl.check_units(res, model_decl, impl, ids, dg, 2500 if thorough else 260, hist, report,
                                              unknown_violation, disagree, (oracle_text, explain_diff, diff_causes, err_cause))
   res.extra["decl_units"] = {"cases": n_units, "wf": n_wf_units}
